@@ -359,6 +359,16 @@ impl Exec for CodecWExec {
                     }
                 }
             }
+            ["arena_flush"] => {
+                if self.with_consumer(|c| c.arena().flush_cache()).is_none() {
+                    return StepOut::bad();
+                }
+            }
+            ["arena_take_drop"] => {
+                if self.with_consumer(|c| drop(c.take_arena())).is_none() {
+                    return StepOut::bad();
+                }
+            }
             ["drain_all"] | ["drain_slices", _] | ["drain_bytes", _] => {
                 let k = if w.len() == 2 {
                     let Ok(k) = w[1].parse::<usize>() else { return StepOut::bad() };
@@ -600,6 +610,32 @@ impl Family for CodecWFamily {
         let decoder = rng.chance(1, 4);
         // streaming soak cases: many medium pieces, drain everything after each call
         let soak = !decoder && !tiny && (idx % 8 == 0);
+        if decoder && rng.chance(1, 3) {
+            // an anchored piece that decodes a long (borrowed) payload run and THEN hits a bad header
+            // byte, after which the arena lets go of its chunk: the output must stay readable
+            let (lim, big) = if rng.chance(1, 2) { ("prod".to_string(), rng.range(65, 252) as usize) } else { ("4 300".to_string(), rng.range(65, 299) as usize) };
+            ops.push(format!("dec_new {}", lim));
+            let mut wire: Vec<u8> = Vec::new();
+            if lim == "prod" {
+                wire.push(big as u8);
+                wire.extend((0..big).map(|k| (k as u8).wrapping_mul(3)));
+            } else {
+                wire.extend([2u8, 7, 7]);
+                wire.extend([(big % 253) as u8, (big / 253) as u8]);
+                wire.extend((0..big).map(|k| (k as u8).wrapping_mul(5)));
+            }
+            match rng.below(3) {
+                0 => wire.push(0xFF),                  // bad first header digit of the next chunk
+                1 => wire.extend([1u8, 0xFE]),         // bad second digit
+                _ => wire.extend([0u8, 0u8, 0xFD]),    // empty chunk, then a bad digit
+            }
+            let split = rng.range(0, 3) as usize;
+            ops.push(format!("feed a {}", to_hex(&wire[..split.min(wire.len())])));
+            ops.push(format!("feed a {}", to_hex(&wire[split.min(wire.len())..])));
+            ops.push(rng.pick(&["arena_flush", "arena_take_drop"]).to_string());
+            ops.push("drain_bytes 10".into());
+            return ops;
+        }
         if decoder {
             ops.push(format!("dec_new {}", lim));
             // build a plausible encoded stream with the reference of what the real encoder does:
